@@ -75,6 +75,9 @@ FAM = {
     "n4cex": dict(NN=4, srcs=[0], snks=[3], edges={(0, 1), (0, 2), (1, 3), (2, 1), (2, 3)}),
     "n5": dict(NN=5, srcs=[0], snks=[4], edges=_inner(5, 0, 4)),
     "n5dag": dict(NN=5, srcs=[0], snks=[4], edges=_dag(5)),
+    # a sparser acyclic edge set (6 source->sink paths)
+    "n5dagq": dict(NN=5, srcs=[0], snks=[4],
+                   edges={(0, 1), (0, 2), (1, 2), (1, 3), (2, 3), (1, 4), (2, 4), (3, 4)}),
     "n5all": dict(NN=5, srcs=[0], snks=[4], edges=_all(5)),
     "n5s2t2": dict(NN=5, srcs=[1, 0], snks=[3, 4],
                    edges={(0, 2), (1, 2), (0, 3), (1, 4), (2, 3), (2, 4), (3, 4), (0, 1), (2, 0), (4, 2), (1, 3), (3, 2)}),
@@ -108,7 +111,7 @@ PLAN = {
         paths=[("n4", "digraph", 2, BOTH, ALL_NP, ALL_CUT, 3),
                ("n4src2", "digraph", 2, BOTH, [NONE], [(1, 1)], 2),
                ("n4snk2", "digraph", 1, BOTH, ALL_NP, ALL_CUT, 2),
-               ("n5dag", "dagflow", 1, BOTH, [NONE], [(1, 1)], 2)],
+               ("n5dagq", "dagflow", 2, BOTH, [NONE], [(1, 1)], 2)],
         # design-level counterexamples TLC is expected to reproduce: (family, kind, MaxW, invariant, key)
         expect=[("n4cex", "digraph", 3, P_BN_NONCONS, KNOWN_KEY),
                 ("n6gadget", "dagflow", 1, P_BN_CONS, "paths/bottleneck/conserved/sum>total")],
@@ -124,15 +127,15 @@ PLAN = {
                ("n4full", "digraph", 1, BOTH, ALL_NP, ALL_CUT, 3),
                ("n4src2", "digraph", 2, BOTH, ALL_NP, ALL_CUT, 3),
                ("n4snk2", "digraph", 2, BOTH, ALL_NP, ALL_CUT, 3),
-               ("n5", "digraph", 1, BOTH, [2, NONE], ALL_CUT, 4),
-               ("n5s2t2", "digraph", 1, BOTH, [NONE], [(1, 1)], 3),
+               ("n5", "digraph", 1, BOTH, [NONE], ALL_CUT, 5),
                ("n5dag", "dagflow", 2, BOTH, [NONE], [(1, 1)], 6)],
-        expect=[("n4", "digraph", 3, P_BN_NONCONS, KNOWN_KEY),
+        expect=[("n4cex", "digraph", 3, P_BN_NONCONS, KNOWN_KEY),
                 ("n6gadget", "dagflow", 2, P_BN_CONS, "paths/bottleneck/conserved/sum>total")],
-        full_maxw={"n5dag": 1}, full_every={"n5dag": 8},
+        full_maxw={"n5dag": 1}, full_every={"n5dag": 16, "n4back": 4},
         random=4000,
-        # (family, kind, MaxW, num) random walks through the Paths spec on all 20 edges of 5 nodes
-        simulate=[("n5all", "digraph", 3, 3000), ("n6dag", "dagflow", 1, 1500)]),
+        # (family, kind, MaxW, num): random behaviours of Paths.tla (one sampled input each)
+        simulate=[("n5all", "random-digraph", 3, 4000), ("n5s2t2", "random-digraph", 2, 4000),
+                  ("n6dag", "random-dagflow", 1, 2000)]),
 }
 
 
@@ -284,7 +287,7 @@ class Workers:
 def _mc(d, name, base, defs, consts, **cfgkw):
     """Tuples cannot be written in a cfg: constants that are sequences / sets of
     tuples are defined in a generated module MC_<name> EXTENDS <base>."""
-    mod = "MC_" + name
+    mod = "MC_" + name.replace("-", "_")
     with open(os.path.join(d, mod + ".tla"), "w") as fh:
         fh.write("---- MODULE %s ----\nEXTENDS %s\n" % (mod, base))
         for k, v in defs.items():
@@ -307,17 +310,25 @@ def _np_lit(vals):
 
 
 def widest_jobs(d, fam, maxw, workers):
+    """-> (exhaustive job, [emit jobs]); the emission (single-threaded by nature) of a large
+    family is split into shards by weight sum."""
     f = FAM[fam]
     consts = {"NN": f["NN"], "MaxW": maxw}
-    m1, c1 = _mc(d, "wp_%s_w%d" % (fam, maxw), "WidestPath", _fam_defs(f), dict(consts, Emit="FALSE"),
+    m1, c1 = _mc(d, "wp_%s_w%d" % (fam, maxw), "WidestPath", _fam_defs(f),
+                 dict(consts, Emit="FALSE", ShardK=0, ShardM=1),
                  invariants=WP_INVS, properties=["VisitedFrozen"])
-    m2, c2 = _mc(d, "wpemit_%s_w%d" % (fam, maxw), "WidestPath", _fam_defs(f), dict(consts, Emit="TRUE"),
-                 invariants=["EmitInv"], next_="Stutter")
     lab = "%s W<=%d" % (fam, maxw)
-    # per-action coverage costs ~40% of TLC's time: collected on all but the largest run
+    ngraphs = (maxw + 1) ** len(f["edges"])
+    shards = max(1, min(8, ngraphs // 8000))
+    emits = []
+    for k in range(shards):
+        m2, c2 = _mc(d, "wpemit_%s_w%d_%d" % (fam, maxw, k), "WidestPath", _fam_defs(f),
+                     dict(consts, Emit="TRUE", ShardK=k, ShardM=shards), invariants=["EmitInv"], next_="Stutter")
+        emits.append(dict(module=m2, cfg=c2, cwd=d, label="WidestPath emit %s shard %d/%d" % (lab, k, shards),
+                          workers=1, timeout=3000, java_opts=("-Xmx2g",)))
+    # per-action coverage costs ~40% of TLC's time: collected on all but the largest runs
     return (dict(module=m1, cfg=c1, cwd=d, label="WidestPath exhaustive " + lab, workers=workers,
-                 coverage=(len(f["edges"]) * math.log(maxw + 1) < 9.5), timeout=3000),
-            dict(module=m2, cfg=c2, cwd=d, label="WidestPath emit " + lab, workers=1, timeout=3000))
+                 coverage=(ngraphs < 15000), timeout=3000, java_opts=("-Xmx2g",)), emits)
 
 
 def paths_job(d, fam, kind, maxw, schemes, nps, cuts, workers, invariants, tag="", **kw):
@@ -332,7 +343,7 @@ def paths_job(d, fam, kind, maxw, schemes, nps, cuts, workers, invariants, tag="
     lab = "Paths %s %s/%s W<=%d schemes=%s num_paths=%s cutoffs=%s" % (
         tag or "exhaustive", fam, kind, maxw, "+".join(schemes),
         ["inf" if v == NONE else v for v in nps], ["%d/%d" % c_ for c_ in cuts])
-    j = dict(module=m, cfg=c, cwd=d, label=lab, workers=workers, timeout=3000)
+    j = dict(module=m, cfg=c, cwd=d, label=lab, workers=workers, timeout=3000, java_opts=("-Xmx2g",))
     j.update(kw)
     return j
 
@@ -395,7 +406,7 @@ def validate(ctx, d, cases, pool_submit, tag):
     """Write the recorded cases to trace files, return the submitted TLC jobs."""
     tdir = core.scratch("ev_c17tr_")
     total_runs = sum(len(c["runs"]) for c in cases)
-    nchunks = max(1, min(10, total_runs // 4000))
+    nchunks = max(1, min(10 if total_runs < 400000 else 20, total_runs // 4000))
     size = int(math.ceil(len(cases) / nchunks))
     m, cfg = _mc(d, "trace_" + tag, "Trace_Paths", {}, {}, invariants=["Verdict"])
     subs = []
@@ -410,7 +421,7 @@ def validate(ctx, d, cases, pool_submit, tag):
         with open(path, "w") as fh:
             json.dump(slim, fh)
         job = dict(module=m, cfg=cfg, cwd=d, label="Trace_Paths %s chunk %d (%d cases)" % (tag, ci, len(part)),
-                   workers=2, env={"TRACE_FILE": path}, timeout=3000)
+                   workers=2, env={"TRACE_FILE": path}, timeout=3000, java_opts=("-Xmx2g",))
         subs.append((part, pool_submit(job)))
     return subs
 
@@ -436,7 +447,7 @@ def run(ctx):
     def dbg(msg):
         if os.environ.get("VERIF_DEBUG"):
             print("[c17 %.1fs] %s" % (__import__("time").time() - t0[0], msg), flush=True)
-    ex = ThreadPoolExecutor(12)
+    ex = ThreadPoolExecutor(10)
     submitted = []   # (job, expect_ok, future) in accounting order
 
     def submit(job, expect_ok=True):
@@ -448,7 +459,7 @@ def run(ctx):
     try:
         # ---- launch: emitters first (critical path), then the exhaustive runs
         wjobs = [widest_jobs(d, fam, w, wk) for fam, w, wk in plan["widest"]]
-        emit_f = [submit(e) for _, e in wjobs]
+        emit_f = [[submit(e) for e in es] for _, es in wjobs]
         for x, _ in wjobs:
             submit(x)
         for fam, kind, w, sch, nps, cuts, wk in plan["paths"]:
@@ -459,17 +470,20 @@ def run(ctx):
             j = paths_job(d, fam, kind, w, ["bottleneck"], [NONE], [(1, 1)], 2, [inv], tag="cex")
             expect_f.append((inv, key, j, submit(j, expect_ok=False)))
         for fam, kind, w, num in plan["simulate"]:
-            invs = P_INVS if fam == "n6dag" else P_INVS + [P_BN_CONS]
-            submit(paths_job(d, fam, kind, w, BOTH, ALL_NP, ALL_CUT, 4, invs, tag="simulate",
+            # on 6 nodes bottleneck removal over-explains conserved flows too (see `expect`)
+            invs = P_INVS if FAM[fam]["NN"] > 5 else P_INVS + [P_BN_CONS]
+            submit(paths_job(d, fam, kind, w, BOTH, ALL_NP, ALL_CUT, 3, invs, tag="simulate",
                              simulate="num=%d" % num, seed=ctx.seed))
 
         # ---- pattern A: every emitted graph into the real top_path
         jobs = []
-        for (fam, w, _), fut in zip(plan["widest"], emit_f):
-            r = fut.result()
-            if r.error:
-                raise core.MachineryError("emit %s: %s" % (fam, r.error))
-            cases = [p for t, p in r.prints if t == "CASE"]
+        for (fam, w, _), futs in zip(plan["widest"], emit_f):
+            cases = []
+            for fut in futs:
+                r = fut.result()
+                if r.error:
+                    raise core.MachineryError("emit %s: %s" % (fam, r.error))
+                cases += [p for t, p in r.prints if t == "CASE"]
             if len(cases) != (w + 1) ** len(FAM[fam]["edges"]):
                 raise core.MachineryError("emit %s: %d cases" % (fam, len(cases)))
             dbg("emitted %s: %d cases (%.1fs)" % (fam, len(cases), r.wall))
@@ -562,7 +576,8 @@ def run(ctx):
         for run_ in ctx.tlc_runs:
             cov = run_.get("coverage") or {}
             if "exhaustive" in run_["label"] and cov:
-                dead = [a for a, n_ in cov.items() if n_ == 0 and a[0].isupper()]
+                # Gen is the sampling step of the simulation-only families
+                dead = [a for a, n_ in cov.items() if n_ == 0 and a[0].isupper() and a != "Gen"]
                 if dead:
                     raise core.MachineryError("vacuous run %s: actions never fired: %s" % (run_["label"], dead))
         ctx.exhaustive = True
